@@ -34,7 +34,7 @@ func runC13(c *Ctx) {
 		return
 	}
 	total, _ := checkMustCompile(c, p, "R13.1", core.RootMod)
-	c.R.RequireMin("R13.1", "regexp.MustCompile call sites in the root module", total, 60)
+	c.R.RequireMin("R13.1", "regexp.MustCompile call sites in the root module", total, 25)
 	// values registered by AddValue/AddPrecomputedValue are quoted before compilation
 	nCompile := 0
 	for _, name := range []string{"(*Classifier).AddValue", "(*Classifier).AddPrecomputedValue"} {
@@ -95,7 +95,7 @@ func runC13(c *Ctx) {
 		}
 		c.R.Check(ok, "R13.2", key+": Confidence was tested > 0 on every path", p.Pos(lit.alloc.Pos()), "dominating conf > 0.0", "a match whose confidence may be 0 (or negative) is queued: reported confidences must lie in (0,1]")
 	}
-	c.R.RequireMin("R13.2", "Match literals with a Confidence", n, 3)
+	c.R.RequireMin("R13.2", "Match literals with a Confidence", n, 2)
 
 	// R13.3
 	if fn := p.Func(scPkg, "(*matcher).withinConfidenceThreshold"); c.R.Anchor(fn != nil, "stringclassifier.(*matcher).withinConfidenceThreshold") {
@@ -269,5 +269,5 @@ func checkCommonWordsGate(c *Ctx, p *core.Prog) {
 	if bad == 0 {
 		c.R.OK("R16.2", "the common-words gate is case-insensitive wherever it sees raw text", "classifier.go", fmt.Sprintf("%d patterns, %d call sites (%d on raw text)", len(pats), nCalls, rawCallers))
 	}
-	c.R.RequireMin("R16.2", "common-word patterns", len(pats), 4)
+	c.R.RequireMin("R16.2", "common-word patterns", len(pats), 2)
 }
